@@ -44,6 +44,10 @@ def run(chk: Check, proj: Project) -> None:
     s8_key_fields(chk, proj)
     s11_kind_flow(chk, proj, w)
     s12_served_iff_announced(chk, proj, w)
+    from . import C06 as _C06
+
+    chk.borrow("S15", "a script that could not be stored is not announced: an error of the cache backend while caching a script reaches the render (which then emits nothing) - a handler that logs and carries on lets the render announce a URL whose script was never stored, and the endpoint answers 404 for it (shared with C06-S3)",
+               lambda sub: _C06.s3_handlers(sub, proj, w), only=lambda o: o.construct.startswith("dependencies:") or o.construct.startswith("cache:"))
     from . import generic
 
     chk.rule("S14", "twin-kind argument agreement on the way from the render to the marker and the cachers: an argument that names one script kind is bound to the parameter of the same kind (js_input_hash -> js_input_hash, never css_input_hash) (generic template, shared with C04-S20)")
